@@ -72,6 +72,9 @@ class SimWriteHandle(object):
         # fault plan for this handle
         self.write_error_at = None      # (call index, persisted bytes)
         self.crash_at_byte = None       # global byte offset in the file
+        # a sink whose write() returns nothing (response objects, duck-typed
+        # sinks): everything handed to write() is still stored
+        self.returns_none = False
 
         for f in world.scn.get('faults', ()):
             if f.get('file') != fname:
@@ -122,7 +125,7 @@ class SimWriteHandle(object):
         data += b
         self.file.writes.append((self.actor, len(b)))
         w.ev(self.actor, 'write', len(b), zlib.crc32(b))
-        return len(b)
+        return None if self.returns_none else len(b)
 
     def writable(self):
         return True
@@ -145,7 +148,8 @@ class SimReadHandle(object):
     close / context manager over the bytes visible to this consumer."""
 
     def __init__(self, world, data, actor, cap=None, read_error_at=None,
-                 seek_error_at=None):
+                 seek_error_at=None, seek_none=False, short_at=None,
+                 nonseekable=False):
         self.world = world
         self.data = bytes(data)
         self.pos = 0
@@ -159,6 +163,14 @@ class SimReadHandle(object):
         self.nseeks = 0
         self.max_read = 0
         self.close_calls = 0
+        # seek() returning nothing (mmap before Python 3.13, hand-written
+        # wrappers); short reads: a read that would cross one of these
+        # absolute offsets stops there (raw / packet-like streams: read(n)
+        # may return fewer than n bytes before the end); a forward-only
+        # stream (pipe, socket): seekable() is False, seek / tell fail
+        self.seek_none = bool(seek_none)
+        self.short_at = sorted(short_at or ())
+        self.nonseekable = bool(nonseekable)
 
     def _event(self, *t):
         self.nevents += 1
@@ -191,6 +203,13 @@ class SimReadHandle(object):
             out = self.data[self.pos:]
         else:
             out = self.data[self.pos:self.pos + n]
+
+        if self.short_at and n >= 0:
+            for b in self.short_at:
+                if self.pos < b < self.pos + len(out):
+                    out = out[:b - self.pos]
+                    self.world.faults['short_read'] += 1
+                    break
 
         self.pos += len(out)
 
@@ -255,6 +274,10 @@ class SimReadHandle(object):
         if self.closed:
             raise ValueError('I/O operation on closed file.')
 
+        if self.nonseekable:
+            self._event('seek-unsupported', off, whence)
+            raise io.UnsupportedOperation('underlying stream is not seekable')
+
         idx = self.nseeks
         self.nseeks += 1
 
@@ -279,16 +302,19 @@ class SimReadHandle(object):
 
         self.pos = new
         self._event('seek', off, whence)
-        return self.pos
+        return None if self.seek_none else self.pos
 
     def tell(self):
+        if self.nonseekable:
+            raise io.UnsupportedOperation('underlying stream is not seekable')
+
         return self.pos
 
     def readable(self):
         return True
 
     def seekable(self):
-        return True
+        return not self.nonseekable
 
     def writable(self):
         return False
